@@ -336,6 +336,21 @@ func runC11(c *ctx, r *Report) error {
 	r.sample(map[string]string{"expr": "github.event['PULL_REQUEST'].head.ref }}", "impl": runSema(env, "github.event['PULL_REQUEST'].head.ref }}", true).canon})
 	r.sample(map[string]string{"expr": "contains(github.event.issue.title, 'x') || github.head_ref }}", "impl": runSema(env, "contains(github.event.issue.title, 'x') || github.head_ref }}", true).canon})
 	r.Exhaustive = true
-	_, err := b.flush(c, r)
-	return err
+	if _, err := b.flush(c, r); err != nil {
+		return err
+	}
+	// workflow level: which strings are script positions (run:, the script input of actions/github-script in any letter
+	// case) and which are not (env, with, name, if, …). In the model AL.Visit only script positions run the untrusted-input
+	// machine (machine_eq_spec: it reports exactly the documented paths); a difference in untrusted reports on a probe
+	// line is an unreported read in a script or a report outside one.
+	nV := 300
+	if !c.quick {
+		nV = 6000
+	}
+	return visitTie(c, r, nV, false, func(cs Case) (string, string) {
+		if a, b := visitCodes(cs.Impl, "untrusted"), visitCodes(cs.Model, "untrusted"); a != b {
+			return "workflow-untrusted-reports-differ", "the untrusted-input reports at the probes (" + a + ") differ from the rule (script positions only, documented paths): " + b
+		}
+		return "", ""
+	})
 }
